@@ -38,6 +38,7 @@ impl CfgStub { pub fn is_zk(&self) -> (r: usize) ensures r == self.zk { self.zk 
 /// RecursiveAir as the prefix sees it
 pub trait BAirStub: Sized {
     spec fn sp_width(&self) -> nat;
+    spec fn sp_prep_width(&self) -> nat;
     spec fn sp_opens_next(&self) -> bool;
     spec fn sp_declares(&self, pre_w: nat) -> bool;
     spec fn sp_log_qc(&self, pre_w: nat, l: &Lookups, zk: nat) -> nat;
@@ -173,6 +174,7 @@ def build():
     ZK = 'config.zk as nat'
     v.requires('zk_flag', 'config.zk <= 1')
     v.ensures('ok_iff_well_formed', f'ret is Ok <==> batch_shape_ok(airs@, proof_targets, public_values@, common, {ZK})')
+    v.ensures('H_the_common_datas_preprocessed_widths_are_the_airs_own', 'ret is Ok ==> forall|i: int| 0 <= i < airs@.len() ==> pre_w_of(common, i) == (#[trigger] airs@[i]).sp_prep_width()')
     v.ensures('malformed_is_invalid_proof_shape_or_randomization_error', 'ret matches Err(e) ==> (e is InvalidProofShape || e is RandomizationError)')
     FND = 'for f_ in 0..global.matrix_to_instance.len()'
     A0 = 'for a0_ in 0..instances.len()'
